@@ -9,6 +9,7 @@ ctx=core.Ctx(pid,"quick",int(sys.argv[3]) if len(sys.argv)>3 else 1)
 st=ctx.stage("wptry","lib/dispatchcloud/worker","worker",["C14/zz_verif_c14wp_test.go"],"TestVerifC14WP$",n,HDR.format(imports="model.C16_runq model.C14_pool model.C14_wp_run"),shard=50,env={"VERIF_STAGE":"wptry","VERIF_WPMODE":mode},replace=_replace())
 print(st.errors[:1] if st.errors else "no errors", st.failing[:20], st.wall, st.evaluated)
 import json
+print([l for l in getattr(st,"harness_log","").splitlines() if "not recorded" in l or "generation stopped" in l])
 if st.failing:
     idx,code,gi=st.failing[0]
     for l in st.meta['descs'][gi]['steps']: print(l)
